@@ -48,6 +48,46 @@ def gen_matrix(rng, maxn=9, exact=True):
     return m, float(t)
 
 
+def near_tie_triples():
+    """grid values (a, b, c) with (a + b) / 2 and c different as floats but equal to within a few ulps"""
+    out = []
+    grid = [round(k * 0.05, 2) for k in range(1, 20)]
+    for a in grid:
+        for b in grid:
+            if a < b:
+                avg = (a + b) / 2
+                for c in grid:
+                    if avg != c and abs(avg - c) < 1e-12:
+                        out.append((a, b, c))
+    return out
+
+
+NEAR_TIES = near_tie_triples()
+
+
+def gen_near_tie(rng):
+    """matrix in which, after a first merge {A,B}, the average linkage of {A,B}-C and the distance C-D differ in the last bits only;
+    returns the matrix and a sweep of thresholds (the merge order must not depend on which of them is used)"""
+    a, b, c = rng.choice(NEAR_TIES)
+    if rng.random() < 0.5:
+        a, b = b, a
+    n = rng.choice([4, 4, 5, 6])
+    small = rng.choice([x for x in (0.01, 0.02, 0.05) if x < min(a, b, c)] or [0.001])
+    far = rng.choice([0.9, 0.95, 1.0])
+    m = [[0.0 if i == j else far for j in range(n)] for i in range(n)]
+
+    def put(i, j, v):
+        m[i][j] = m[j][i] = v
+    put(0, 1, small)
+    put(0, 2, a)
+    put(1, 2, b)
+    put(2, 3, c)
+    perm = list(range(n))
+    rng.shuffle(perm)
+    m = [[m[perm[i]][perm[j]] for j in range(n)] for i in range(n)]
+    return m, [round(k * 0.05, 2) for k in range(1, 21)]
+
+
 class Tracer:
     """Records the `clusters` dictionary at every (recursive) call of a flat-clustering helper."""
 
